@@ -171,4 +171,55 @@ theorem getLine_line (p : Parser) (l : Line) (p' : Parser) (h : p.getLine = (som
 theorem getLine_last_unterminated (c : Bytes) (n : Nat) :
     Parser.getLine ⟨⟨[⟨c, .none⟩], false, false⟩, n⟩ = (some ⟨c, .lf⟩, ⟨⟨[], true, false⟩, n + 1⟩) := rfl
 
+/-! ### the `\ No newline at end of file` marker -/
+
+/-- NEW (`mark_as_unterminated`): **the marker takes away the newline and nothing else**.  The last hunk line before a marker
+    line — read from the patch as `c` with its terminator class `nl` (LF or CR LF, `getLine_never_none`) — becomes a line
+    without newline whose bytes are the bytes it had in the patch less the final LF: for a line that ended in CR LF the CR
+    stays, as the last byte of the content (there is no newline after the line which it could be a part of).  Before the
+    change the CR was dropped with the LF, and the last line of a file ending in a bare CR could not be matched or written. -/
+theorem marker_removes_only_the_newline (L : List PatchLine) (op : UInt8) (c : Bytes) (nl : NewLine) (hnl : nl ≠ .none) :
+    ∃ c', markLastNone (L ++ [⟨op, ⟨c, nl⟩⟩]) = L ++ [⟨op, ⟨c', .none⟩⟩] ∧
+      renderLine .keep ⟨c', .none⟩ ++ [NL] = renderLine .keep ⟨c, nl⟩ := by
+  refine ⟨if nl = .crlf then c ++ [CR] else c, by unfold markLastNone; simp, ?_⟩
+  cases nl with
+  | lf => simp [renderLine, renderNewline]
+  | crlf => simp [renderLine, renderNewline]
+  | none => exact absurd rfl hnl
+
+/-- the two cases: a CR LF line keeps its CR, an LF line its content; on an empty list the marker does nothing -/
+theorem marker_keeps_cr (L : List PatchLine) (op : UInt8) (c : Bytes) :
+    markLastNone (L ++ [⟨op, ⟨c, .crlf⟩⟩]) = L ++ [⟨op, ⟨c ++ [CR], .none⟩⟩] ∧
+    markLastNone (L ++ [⟨op, ⟨c, .lf⟩⟩]) = L ++ [⟨op, ⟨c, .none⟩⟩] ∧
+    markLastNone [] = [] := by
+  refine ⟨?_, ?_, rfl⟩ <;> (unfold markLastNone; simp)
+
+/-- so a file whose last line ends in a bare CR, patched by a hunk that keeps that line (context, no newline, CR kept by the
+    marker), still ends in that CR: the line as the marker leaves it is the line as `get_line` reads it from the file -/
+theorem bare_cr_line_matches_file (c : Bytes) (hne : NL ∉ c) :
+    splitLines (c ++ [CR]) = [⟨c ++ [CR], .none⟩] ∧
+    markLastNone [⟨SP, ⟨c, .crlf⟩⟩] = [⟨SP, ⟨c ++ [CR], .none⟩⟩] ∧
+    renderLines .keep [⟨c ++ [CR], .none⟩] = c ++ [CR] := by
+  refine ⟨?_, (marker_keeps_cr [] SP c).1, by simp [renderLines, renderLine, renderNewline]⟩
+  have h : ∀ (bs cur : Bytes), NL ∉ bs → splitLinesGo cur bs = if cur ++ bs = [] then [] else [⟨cur ++ bs, .none⟩] := by
+    intro bs
+    induction bs with
+    | nil => intro cur _; simp [splitLinesGo]
+    | cons b r ih =>
+      intro cur hb
+      have hb1 : (b == NL) = false := by
+        simp only [List.mem_cons, not_or] at hb
+        simpa using fun e => hb.1 e.symm
+      rw [splitLinesGo, hb1]
+      simp only [Bool.false_eq_true, if_false]
+      rw [ih (cur ++ [b]) (fun hm => hb (List.mem_cons_of_mem _ hm))]
+      simp
+  unfold splitLines
+  rw [h _ _ (by
+    intro hm
+    rcases List.mem_append.1 hm with h1 | h1
+    · exact hne h1
+    · simp at h1; exact absurd h1 (by decide))]
+  simp
+
 end PatchModel.C14
